@@ -27,6 +27,8 @@ const SPEC: Spec = Spec {
         "SC.on_return.ensures.sticky",
         "SC.on_return.ensures.reject-return-without-invoke",
         "SC.on_return.ensures.complete",
+        "SC.on_invoke.ensures.event-step",
+        "SC.on_return.ensures.event-step",
     ],
     obl_invalid: &["SC.serialized_history.ensures.invalid-none", "SC.is_consistent.ensures.invalid-inconsistent"],
     obl_sound: &[
@@ -94,7 +96,7 @@ pub fn run(ctx: &mut Ctx) {
                     format!("linearizable implies sequentially consistent; events={:?}", events),
                 )
             };
-            ctx.check(&linsc_case, "lin-implies-sc", &["SC.lemma.lin_order_implies_sc_order", "SC.lemma.linearizable_implies_sc_consistent", "LIN.is_consistent.ensures.sound", "SC.is_consistent.ensures.complete"], ok, obs, req);
+            ctx.check(&linsc_case, "lin-implies-sc", &["SC.lemma.accepted_by_lin_is_accepted_by_sc", "SC.lemma.lin_reach_strips_to_sc_run", "SC.lemma.lin_order_implies_sc_order", "SC.lemma.linearizable_implies_sc_consistent", "LIN.is_consistent.ensures.sound", "SC.is_consistent.ensures.complete"], ok, obs, req);
         }
         if wc {
             // (vi) both testers are plain values
